@@ -236,11 +236,17 @@ class Kinds(object):
             ]
         self.methods = m
 
-    def aux(self):
+    def aux(self, variant=0):
         be = self.be
+        pool = getattr(self, "pool", None)
         x = {"gen": be.pauli([1, 2, 2]), "gen1": be.pauli([3, 0]), "map": be.cmap(MAPW), "map1": be.cmap(MAP1),
              "list": be.plist([[1, 3, 1], [2, 2, 0], [0, 3, 2]]), "commuting": be.plist([[3, 3, 2], [1, 1, 0]]),
              "state": be.state(ins_to_state(MAPW), 0), "poly": be.poly([[1, 1, 1], [3, 0, 2]], [0.5, 2 - 1j])}
+        if pool and variant >= 3:
+            m = pool[(variant * 15485863 + 5) % len(pool)]
+            x["state"] = be.state(ins_to_state(m), 0)
+            x["map"] = be.cmap(pool[(variant * 32452843 + 11) % len(pool)])
+            x["list"] = be.plist([m[1][:-1] + [1], m[2], m[0][:-1] + [2]])
         if be.name == "py":
             x["gate"] = self.C.H(1)
         else:
@@ -252,6 +258,20 @@ class Kinds(object):
     def new(self, kind, variant=0):
         be, C = self.be, self.C
         v = variant % 3
+        pool = getattr(self, "pool", None)
+        if pool and variant >= 3 and kind in ("Pauli", "PauliList", "PauliPolynomial", "CliffordMap", "StabilizerState"):
+            m = pool[(variant * 7919 + 13) % len(pool)]
+            m2 = pool[(variant * 104729 + 7) % len(pool)]
+            ph = lambda w, j: w[:-1] + [(w[-1] + j + variant) % 4]
+            if kind == "Pauli":
+                return be.pauli(ph(m[variant % 4], 1))
+            if kind == "PauliList":
+                return be.plist([ph(m[0], 0), ph(m2[1], 1), ph(m[3], 3)])
+            if kind == "PauliPolynomial":
+                return be.poly([ph(m[0], 0), ph(m2[1], 1), ph(m[3], 3)], [0.5 + variant % 3, 1 - 2j, 0.25j])
+            if kind == "CliffordMap":
+                return be.cmap(m)
+            return be.state(ins_to_state(m), (0, 0, 0, 1, 2)[variant % 5])
         if kind == "Pauli":
             return be.pauli([[1, 3, 1], [2, 0, 2], [0, 0, 3]][v])
         if kind == "PauliList":
@@ -320,6 +340,10 @@ class C17(Prop):
     def models(self):
         pf = "%s/hist.txt" % self.wd
         self.model("Heap", "MC_Heap.cfg", name="heap_histories", print_file=pf)
+        from .c03 import read_maps
+        pf2 = "%s/maps_n2.txt" % self.wd
+        self.model("MC_Clifford", "MC_Clifford_maps_n2.cfg", name="maps_n2", print_file=pf2, expect_distinct=11520)
+        self.pool = [m for m, _ in read_maps(pf2)]
         self.hists = []
         with open(pf) as f:
             for line in f:
@@ -331,9 +355,10 @@ class C17(Prop):
         thorough = self.tier == "thorough"
         kinds = ["Pauli", "PauliList", "PauliMonomial", "PauliPolynomial", "CliffordMap", "StabilizerState", "CliffordGate",
                  "CliffordLayer", "CliffordCircuit", "Circuit", "MeasuringCircuit"]
+        nv = 120 if thorough else 30
         for kind in kinds:
-            for v in range(3):
-                yield {"k": "methods", "kind": kind, "v": v}
+            for v in range(3 + (nv if kind in ("Pauli", "PauliList", "PauliPolynomial", "CliffordMap", "StabilizerState") else 0)):
+                yield {"k": "methods", "kind": kind, "v": v + self.seed * 1000 if v >= 3 else v}
                 if kind != "MeasuringCircuit":
                     yield {"k": "copy", "kind": kind, "v": v}
         hs = self.rng.sample(self.hists, 3000 if thorough else 500)
@@ -345,6 +370,7 @@ class C17(Prop):
         K = getattr(self, "_k_" + be.name, None)
         if K is None:
             K = Kinds(be)
+            K.pool = self.pool
             setattr(self, "_k_" + be.name, K)
         kind = scn["kind"]
         if kind not in K.methods and kind != "MeasuringCircuit":
@@ -357,7 +383,7 @@ class C17(Prop):
                 name, cls, fn = ent[0], ent[1], ent[2]
                 rec = {"op": "call", "kind": kind, "meth": name, "cls": cls, "recv": "o"}
                 try:
-                    o, a, x = K.new(kind, scn["v"]), K.new(kind, scn["v"] + 1), K.aux()
+                    o, a, x = K.new(kind, scn["v"]), K.new(kind, scn["v"] + 1), K.aux(scn["v"])
                     heap = {"o": o, "a": a}
                     heap.update({"x_" + k2: v2 for k2, v2 in x.items()})
                     before = {k2: val(v2) for k2, v2 in heap.items()}
@@ -417,7 +443,7 @@ class C17(Prop):
                 if act == "new":
                     s["o"] = "s%d" % st[1]
                     s["before"] = snap()
-                    slots[st[1]] = K.new(kind, st[1] + scn["salt"])
+                    slots[st[1]] = K.new(kind, st[1] + 3 * scn["salt"])
                 elif act == "copy":
                     s["s"], s["d"] = "s%d" % st[1], "s%d" % st[2]
                     s["before"] = snap()
